@@ -20,6 +20,11 @@ class _OldRewriter(ast.NodeTransformer):
             self.olds.append(node.args[0])
             return ast.Subscript(value=ast.Name(id='__old', ctx=ast.Load()),
                                  slice=ast.Constant(value=len(self.olds) - 1), ctx=ast.Load())
+        if isinstance(node.func, ast.Name) and node.func.id == 'oldget' and len(node.args) == 2:
+            self.olds.append(node.args[0])
+            base = ast.Subscript(value=ast.Name(id='__old', ctx=ast.Load()),
+                                 slice=ast.Constant(value=len(self.olds) - 1), ctx=ast.Load())
+            return ast.Subscript(value=base, slice=self.visit(node.args[1]), ctx=ast.Load())
         node = self.generic_visit(node)
         if isinstance(node.func, ast.Name) and node.func.id == 'implies' and len(node.args) == 2:
             # short-circuit natively: the consequent may be undefined when the antecedent is false
@@ -113,6 +118,9 @@ def native_check(contract, args, kwargs=None, only=None, window=12, with_domain=
     # pre-state values of old(...) sub-expressions and of raises conditions
     compiled = {}
     for name, en in contract.ensures.items():
+        if contract.ghost_vars and any(isinstance(x, ast.Name) and x.id in contract.ghost_vars
+                                       for x in ast.walk(ast.parse(en.strip(), mode='eval'))):
+            continue    # clause about ghost state: not observable natively
         code, olds = split_old(en)
         vals = []
         for o in olds:
